@@ -27,6 +27,7 @@ def main():
         try:
             shutil.copytree("/repo/lentil", os.path.join(tmp, "lentil"),
                             ignore=shutil.ignore_patterns("__pycache__"))
+            shutil.copytree("/repo/docs/user", os.path.join(tmp, "docs", "user"))
             fp = os.path.join(tmp, path)
             src = open(fp).read()
             if src.count(old) != 1:
